@@ -375,6 +375,8 @@ PINNED_RULES = {
                 ' ~ (comment ~ (WHITESPACE | plain_newline)+ | WHITESPACE | plain_newline)*)*'
                 ' ~ (comment ~ (WHITESPACE | plain_newline)* | WHITESPACE | plain_newline)*'
                 ' ~ return_statement ~ (WHITESPACE | plain_newline)* ~ "}" }',
+    # assignment as a term (Model/ExprPeg.lean `asgR`, `asgHead`): NON-ATOMIC, the value is an `expression`
+    "assignment": '!{ identifier ~ "=" ~ expression }',
     # conditionals (Model/ExprPeg.lean `condR`, `ifHead`, `kwGap`): atomic, explicit layout
     "conditional": '${ "if" ~ WHITESPACE+ ~ expression ~ (WHITESPACE | NEWLINE)+ ~ "then" ~ (WHITESPACE | NEWLINE)+ ~ expression'
                    ' ~ (WHITESPACE | NEWLINE)+ ~ "else" ~ (WHITESPACE | NEWLINE)+ ~ expression }',
